@@ -73,11 +73,29 @@ def run(ctx):
                                 chars.add(chr(int(o[1]["v"])))
         ctx.check("table:write_number_str", bool(ok and a and dl) and chars == {".", "e", "E"},
                   "number strings are written only if they contain none of '.', 'e', 'E' (tested: %s)" % sorted(chars), rules.where(f), fn=f)
-    # type
+    # members are emitted sorted by key bytes and each key once.  Mechanisms recognised: an ordered map keyed by the key
+    # bytes (sorted and unique by construction), or a vector that end_object sorts *and* de-duplicates by key.
     obj = db.adts.get("radicle::canonical::formatter::Object")
     fty = [x["ty"] for x in obj["variants"][0]["fields"] if x["n"] == "obj"] if obj else []
-    ctx.check("type:Object.obj", bool(fty) and fty[0] == "alloc::collections::btree::map::BTreeMap<alloc::vec::Vec<u8>, alloc::vec::Vec<u8>>",
-              "object members are buffered in BTreeMap<Vec<u8>, Vec<u8>> (byte-ordered keys): %s" % fty)
+    eo = hook("end_object")
+    if not fty:
+        ctx.violated("mech:object:ordered-unique", "Object.obj not found (anchor missing)")
+    elif re.match(r"^alloc::collections::btree::map::BTreeMap<alloc::vec::Vec<u8>, ", fty[0]):
+        ctx.held("mech:object:ordered-unique", "object members are buffered in a BTreeMap keyed by the key bytes: emitted in byte order, each key once (%s)" % fty[0])
+    elif re.match(r"^alloc::vec::Vec<\(alloc::vec::Vec<u8>, ", fty[0]) and eo is not None:
+        srt = [bb for bb, t, c in db.calls(eo) if re.search(r"slice::.*sort(_unstable)?(_by|_by_key|_by_cached_key)?$|::sort(_unstable)?(_by|_by_key)?$", c.get("n") or "")]
+        ddp = [bb for bb, t, c in db.calls(eo) if re.search(r"Vec::dedup(_by|_by_key)?$", c.get("n") or "")]
+        if not srt:
+            ctx.violated("mech:object:ordered-unique", "object members are buffered in a vector that end_object does not sort: member order follows the serializer", rules.where(eo), fn=eo)
+        elif not ddp:
+            ctx.violated("mech:object:ordered-unique",
+                         "object members are buffered in a vector that is sorted but not de-duplicated: two members whose keys are equal after "
+                         "normalisation are both emitted, so the output is not the single byte representation of the value (decoding and "
+                         "re-encoding changes it)", rules.where(eo, srt[0]), fn=eo)
+        else:
+            ctx.ob("mech:object:ordered-unique", "inconclusive", "object members are sorted and de-duplicated in a vector; which duplicate survives is not decided here", rules.where(eo), fn=eo)
+    else:
+        ctx.ob("mech:object:ordered-unique", "inconclusive", "object members are buffered in %s: not a mechanism this rule recognises" % fty[0], "")
     f = hook("end_object")
     if f is not None:
         it = [bb for bb, t, c in db.calls(f) if (c.get("dn") or "").endswith("IntoIterator::into_iter") and nshow(base_value(expr_operand(f, t[2][0]))).endswith(".obj")
@@ -90,12 +108,12 @@ def run(ctx):
                   "end_object uses CompactFormatter's separators in order (%s)" % names, rules.where(f), fn=f)
     f = hook("end_object_value")
     if f is not None:
-        ins = [bb for bb, callee in rules.field_mut_calls(f, "obj") if callee.endswith("BTreeMap::insert")]
+        ins = [bb for bb, callee in rules.field_mut_calls(f, "obj") if re.search(r"(BTreeMap::insert|Vec::push)$", callee)]
         okk = False
         for bb in ins:
             t = f["blocks"][bb]["t"]
-            k, v = nshow(expr_operand(f, t[2][1])), nshow(expr_operand(f, t[2][2]))
-            okk = "next_key" in k and "next_value" in v
+            args = " | ".join(nshow(expr_operand(f, a)) for a in t[2][1:])
+            okk = "next_key" in args and "next_value" in args
         ctx.check("flow:end_object_value", okk, "a finished member is stored as (next_key, next_value)", rules.where(f), fn=f)
     # NFC
     f = hook("write_string_fragment")
